@@ -70,6 +70,14 @@ CHECKS = {
                      "and must raise above; complete enumeration of orders x back-ends is what decides the "
                      "agree-or-reject clause.",
                 technique="exhaustive enumeration of orders, back-ends and configurations against a reference model"),
+    "C06": dict(engine=E1, ref="5/C06",
+                text="Bases (1-4 shells, l 0..4, all type patterns) x five density-matrix classes x three "
+                     "transformation classes, each observed through every density routine with both back-ends, all "
+                     "derivative-order triples of the tier, five alpha values, and thresholds bracketing the most "
+                     "negative value (x0.5, x0.99, x1.01, x2) - the enumeration of bracketing thresholds decides "
+                     "the clip-or-raise clause; oracle is a term algebra with mechanical differentiation on "
+                     "independent derivative tables.",
+                technique="exhaustive enumeration of configurations, orders and critical thresholds against a reference model"),
 }
 
 NOT_YET = {}
